@@ -28,6 +28,17 @@
 (*                      lattice family: its calls compare the generators   *)
 (*                      with context.lattice                               *)
 (*   SDrop(h)           the last reference goes away                       *)
+(*   SAbort(h)          lattice.graphviz() aborted half-way by an exception *)
+(*                      raised in the caller's own label callback and      *)
+(*                      caught by the caller: like a failing lazy call it  *)
+(*                      leaves the lattice cached and nothing else         *)
+(*   SOrphan(h)         the caller keeps only concept objects of h (they   *)
+(*                      exist once the lattice has been computed) and      *)
+(*                      drops the context and the lattice; the garbage     *)
+(*                      collector runs.  The handle becomes an "orphan":   *)
+(*                      member-level families stay queryable on it and     *)
+(*                      answer for the same table; context-level calls     *)
+(*                      and derivations are gone                           *)
 (*                                                                         *)
 (* The responses of the queries are not modelled here: when a behaviour is *)
 (* replayed on real objects every call is recorded as a TraceCtx event and *)
@@ -49,23 +60,30 @@ svars == <<hs, slast, shist>>
 PureFams == {"C01", "C02", "C16"}
 LazyFams == {"C02L", "C03", "C04", "C05", "C06", "C07", "C08", "C09", "C10", "C18", "C20"}
 Fams == PureFams \cup LazyFams
+(* what can still be asked when only concept objects are left *)
+MemberFams == {"C05", "C06", "C07", "C08", "C09", "C10", "C18"}
 Hows == {"copy", "pickle", "definition", "dict", "force", "json", "literal", "table", "cxt", "csv"}
 
 Free == [st |-> "free"]
 Handle(t, lat) == [st |-> "live", t |-> t, lat |-> lat]
+Orphaned(t) == [st |-> "orphan", t |-> t]
 Live(S, h) == S[h].st = "live"
+Orphan(S, h) == S[h].st = "orphan"
 
 (* the successor as a function of the state and the action record: shared with TraceSession *)
 Enabled(S, a) ==
-    CASE a.a = "new"    -> ~ Live(S, a.h) /\ a.t \in 1..NTables
-      [] a.a = "query"  -> Live(S, a.h) /\ a.fam \in Fams
+    CASE a.a = "new"    -> S[a.h] = Free /\ a.t \in 1..NTables
+      [] a.a = "query"  -> \/ Live(S, a.h) /\ a.fam \in Fams
+                           \/ Orphan(S, a.h) /\ a.fam \in MemberFams
       [] a.a = "fail"   -> Live(S, a.h)
-      [] a.a = "derive" -> Live(S, a.h) /\ ~ Live(S, a.g) /\ a.how \in Hows
-      [] a.a = "drop"   -> Live(S, a.h)
+      [] a.a = "derive" -> Live(S, a.h) /\ S[a.g] = Free /\ a.how \in Hows
+      [] a.a = "drop"   -> Live(S, a.h) \/ Orphan(S, a.h)
+      [] a.a = "abort"  -> Live(S, a.h)
+      [] a.a = "orphan" -> Live(S, a.h) /\ S[a.h].lat
       [] OTHER -> FALSE
 Step(S, a) ==
     CASE a.a = "new"    -> [S EXCEPT ![a.h] = Handle(a.t, FALSE)]
-      [] a.a = "query"  -> [S EXCEPT ![a.h].lat = @ \/ (a.fam \in LazyFams)]
+      [] a.a = "query"  -> IF Orphan(S, a.h) THEN S ELSE [S EXCEPT ![a.h].lat = @ \/ (a.fam \in LazyFams)]
       [] a.a = "fail"   -> [S EXCEPT ![a.h].lat = @ \/ a.lazy]
       [] a.a = "derive" ->
             LET src == S[a.h]
@@ -77,6 +95,8 @@ Step(S, a) ==
             IN  [S EXCEPT ![a.g] = Handle(src.t, travels),
                           ![a.h].lat = @ \/ (a.how = "force")]
       [] a.a = "drop"   -> [S EXCEPT ![a.h] = Free]
+      [] a.a = "abort"  -> [S EXCEPT ![a.h].lat = TRUE]
+      [] a.a = "orphan" -> [S EXCEPT ![a.h] = Orphaned(S[a.h].t)]
 
 Actions(S) ==
        {[a |-> "new", h |-> h, t |-> t] : h \in 1..H, t \in 1..NTables}
@@ -84,6 +104,8 @@ Actions(S) ==
   \cup {[a |-> "fail", h |-> h, lazy |-> z] : h \in 1..H, z \in BOOLEAN}
   \cup {[a |-> "derive", h |-> h, g |-> g, how |-> w] : h \in 1..H, g \in 1..H, w \in Hows}
   \cup {[a |-> "drop", h |-> h] : h \in 1..H}
+  \cup {[a |-> "abort", h |-> h] : h \in 1..H}
+  \cup {[a |-> "orphan", h |-> h] : h \in 1..H}
 
 SInit == hs = [h \in 1..H |-> Free] /\ slast = [a |-> "none"] /\ shist = <<>>
 SNext == \E a \in Actions(hs) : /\ Enabled(hs, a)
@@ -94,7 +116,9 @@ SSpec == SInit /\ [][SNext]_svars
 SView == <<hs, slast>>
 
 (* ------------------------------ checked -------------------------------- *)
-STypeOK == \A h \in 1..H : hs[h] = Free \/ (hs[h].st = "live" /\ hs[h].t \in 1..NTables /\ hs[h].lat \in BOOLEAN)
+STypeOK == \A h \in 1..H : \/ hs[h] = Free
+                            \/ (hs[h].st = "live" /\ hs[h].t \in 1..NTables /\ hs[h].lat \in BOOLEAN)
+                            \/ (hs[h].st = "orphan" /\ hs[h].t \in 1..NTables)
 (* a call on one handle never changes another handle (except that `force` caches in the source) *)
 Touched(a) == IF a.a = "derive" THEN {a.h, a.g} ELSE IF a.a = "none" THEN {} ELSE {a.h}
 SFrame == [][\A h \in 1..H : h \notin Touched(slast') => hs'[h] = hs[h]]_svars
@@ -106,6 +130,14 @@ SPureIsStutter == [][((slast'.a = "query" /\ slast'.fam \in PureFams) \/ (slast'
                         => hs' = hs]_svars
 (* a derived handle holds the table of its source *)
 SDerivedSameTable == [][slast'.a = "derive" => hs'[slast'.g].t = hs[slast'.h].t]_svars
+
+(* concept objects only ever come from a computed lattice, keep the table of the handle they came from, and
+   nothing but dropping them ends that *)
+SOrphans == [][\A h \in 1..H :
+                 /\ (Orphan(hs', h) /\ ~ Orphan(hs, h)) => (Live(hs, h) /\ hs[h].lat /\ hs'[h].t = hs[h].t)
+                 /\ Orphan(hs, h) => (hs'[h] = hs[h] \/ (hs'[h] = Free /\ slast'.a = "drop" /\ slast'.h = h))]_svars
+(* an aborted drawing changes nothing but the flag of its own handle *)
+SAbortOnlySetsFlag == [][slast'.a = "abort" => hs' = [hs EXCEPT ![slast'.h].lat = TRUE]]_svars
 
 (* behaviours for replay: printed by the simulator at a fixed depth *)
 EmitSession == IF Len(shist) = EmitDepth /\ RandomElement(1..EmitOneIn) = 1
